@@ -34,8 +34,11 @@ ASSUMPTIONS = [
     "criteria are recomputed in exact rational arithmetic; an exact tie counts against the implementation only where its own float computation is exact (count ratios, dyadic weights)",
 ]
 MIN_NONTRIVIAL_FRACTION = 0.3
+RULE += " Added after the seeded rounds: " + 'A case may reach its electorate through a history (`hist`: add_agent / remove_agent / set_agent_weight / set_strategy with earlier votes and statistics calls) and must then decide like a fresh colony with the same electorate; S9 re-seats the voters in another order (exact-rational guard against float near-ties); stub exceptions are drawn from 16 exception types.'
 
-KINDS = ["PERMIT", "EXECUTE", "BLOCK", "UNKNOWN", "DEFER", "FAILURE", "RAISE"]
+# BADCONF / BADCONF_NONE: the voter answers PERMIT but its reply cannot be converted into a ballot (confidence "high" / None): a failed voter
+KINDS = ["PERMIT", "EXECUTE", "BLOCK", "UNKNOWN", "DEFER", "FAILURE", "RAISE", "BADCONF", "BADCONF_NONE"]
+FAILED = ("UNKNOWN", "FAILURE", "RAISE", "BADCONF", "BADCONF_NONE")
 STRATS = ["MAJORITY", "SUPERMAJORITY", "UNANIMOUS", "WEIGHTED", "CONFIDENCE", "BAYESIAN", "THRESHOLD"]
 GRID = [0, 0.25, 0.3, 0.5, 1, 2]
 
@@ -109,6 +112,8 @@ class _Stub:
         if self.kind == "RAISE":
             from pbt.props._exc import make
             raise make(_Stub.exc, "voter crashed")
+        if self.kind in ("BADCONF", "BADCONF_NONE"):
+            return ActionProtein("PERMIT", {"confidence": "high" if self.kind == "BADCONF" else None}, self.conf)
         return ActionProtein(self.kind, {"confidence": self.conf}, self.conf)
 
 
@@ -186,7 +191,7 @@ def judge(case):
 
     permits = [v for v in voters if v[0] in ("PERMIT", "EXECUTE")]
     blocks = [v for v in voters if v[0] == "BLOCK"]
-    abst = [v for v in voters if v[0] in ("UNKNOWN", "FAILURE", "RAISE")]
+    abst = [v for v in voters if v[0] in FAILED]
     p, b = len(permits), len(blocks)
     kinds = {v[0] for v in voters}
     out.label("strategy:" + tag, "reached" if res.reached else "not-reached")
@@ -332,7 +337,7 @@ def judge(case):
                              {"voters_after": v2, "before": obs})
     else:
         for i, v in enumerate(voters):
-            if v[0] in ("UNKNOWN", "FAILURE", "RAISE", "DEFER"):
+            if v[0] in FAILED + ("DEFER",):
                 v2 = voters[:i] + [[v[0], 2, v[2]]] + voters[i + 1:]
                 if v2 == voters:
                     continue
